@@ -181,7 +181,49 @@ def loop_heads(body):
     return heads
 
 
-def insert_await_asserts(body, inv, skip=None):
+def debt_scope(text, at, armsub):
+    """X25: if the await at `at` lies inside an arm of `match __debtN {` whose pattern contains `armsub`,
+    return N, else None."""
+    for m in re.finditer(r'match __debt(\d+) \{', text):
+        ob = m.end() - 1
+        if ob > at:
+            break
+        try:
+            cb = match_close(text, ob)
+        except Exception:
+            continue
+        if not (ob < at < cb):
+            continue
+        # arms at depth 1 of this block: find the last `=>` at depth 1 before `at`
+        depth = 0
+        i = ob + 1
+        arm_start = ob + 1
+        last_pat = None
+        while i < at:
+            n2 = skip_literal(text, i)
+            if n2 != i:
+                i = n2
+                continue
+            c = text[i]
+            if c in '{([':
+                depth += 1
+            elif c in '})]':
+                depth -= 1
+                if depth == 0 and c == '}':
+                    arm_start = i + 1
+            elif c == ',' and depth == 0:
+                arm_start = i + 1
+            elif text.startswith('=>', i) and depth == 0:
+                last_pat = text[arm_start:i]
+                i += 2
+                continue
+            i += 1
+        if last_pat is not None and armsub in last_pat:
+            return int(m.group(1))
+    return None
+
+
+def insert_await_asserts(body, inv, skip=None, debt=None):
     """Rule X12: `assert(inv)` in front of every statement that contains an `.await` — dropping the
     future at that await leaves the state asserted here.  Markers are turned into tagged lines by emit_fn."""
     out = body
@@ -246,6 +288,10 @@ def insert_await_asserts(body, inv, skip=None):
                 continue
             break
         marker = '\n\x00AWAIT:%d\x00\n' % k
+        if debt:
+            dn = debt_scope(out, at, debt)
+            if dn is not None:
+                marker += '\x00AWAITD:%d:%d\x00\n' % (k, dn)
         out = out[:st] + marker + out[st:]
         pos = at + len(marker) + len('.await')
         k += 1
@@ -273,6 +319,28 @@ def apply_rules(card, sig, body, log):
             raise AnchorLost('%s: bodysub anchor %r lost' % (card.id, old))
         body = body.replace(old, new)
         log.append({'rule': rule, 'match': old[:120]})
+    if card.opts.get('debt'):
+        # X25: `match S {` (statement position) -> `let __debtN = S; match __debtN {` so that an await inside the arm that
+        # holds an undelivered inbound publish can be named by an assertion
+        scrut = card.opts['debt'].split('|')[0]
+        pat = 'match ' + scrut + ' {'
+        n = 0
+        pos = 0
+        while True:
+            at = body.find(pat, pos)
+            if at < 0:
+                break
+            j = at - 1
+            while j >= 0 and body[j] in ' \t\n':
+                j -= 1
+            if j >= 0 and body[j] not in '{;}':
+                pos = at + len(pat)
+                continue
+            rep = 'let __debt%d = %s; match __debt%d {' % (n, scrut, n)
+            body = body[:at] + rep + body[at + len(pat):]
+            pos = at + len(rep)
+            n += 1
+        log.append({'rule': 'X25', 'match': '%d scope(s): match %s' % (n, scrut)})
     run('X21', R.x21_debug_assert)
     sig, body, hits = R.x2_io_generic(sig, body)
     for h in hits:
@@ -433,7 +501,8 @@ def emit_fn(card, repo, out, info, twin=False, assumed_here=False):
         card.loops = {}
     body = squeeze(body)
     if card.opts.get('awaitinv') and card.id not in UNREADABLE_IDS:
-        body, n_aw = insert_await_asserts(body, card.opts['awaitinv'], card.opts.get('awaitskip'))
+        body, n_aw = insert_await_asserts(body, card.opts['awaitinv'], card.opts.get('awaitskip'),
+                                          card.opts['debt'].split('|')[1] if card.opts.get('debt') else None)
         log.append({'rule': 'X12', 'match': '%d await points: assert(%s)' % (n_aw, card.opts['awaitinv'])})
     if card.opts.get('rename'):
         sig = re.sub(r'\bfn\s+%s\b' % re.escape(fname), 'fn ' + card.opts['rename'], sig, count=1)
@@ -509,10 +578,16 @@ def emit_fn(card, repo, out, info, twin=False, assumed_here=False):
     body_hash = hashlib.sha256()
     for kind, text in hinted:
         if kind == 'body':
-            for piece in re.split(r'(\x00HINT:\w+\x00|\x00AWAIT:\d+\x00)', text):
+            for piece in re.split(r'(\x00HINT:\w+\x00|\x00AWAIT:\d+\x00|\x00AWAITD:\d+:\d+\x00)', text):
                 mm = re.match(r'\x00HINT:(\w+)\x00', piece)
                 ma = re.match(r'\x00AWAIT:(\d+)\x00', piece)
-                if ma:
+                md = re.match(r'\x00AWAITD:(\d+):(\d+)\x00', piece)
+                if md:
+                    # X25: an await while an inbound publish that was already taken from the reader lives only in a local
+                    out.add('        assert(!(__debt%s is %s));' % (md.group(2), card.opts['debt'].split('|')[2]),
+                            {'fn': fid, 'part': 'await', 'clause': 'await%s.debt' % md.group(1), 'tags': ['C13', 'C04']})
+                    rec.setdefault('awaits', []).append('await%s.debt' % md.group(1))
+                elif ma:
                     out.add('        assert(%s);' % card.opts['awaitinv'], {'fn': fid, 'part': 'await', 'clause': 'await%s' % ma.group(1), 'tags': ['C13']})
                     rec.setdefault('awaits', []).append('await%s' % ma.group(1))
                 elif mm:
